@@ -17,6 +17,7 @@ impl SchemaInner {
         self.check_input_objects()?;
         self.check_interfaces()?;
         self.check_unions()?;
+        self.check_enums()?;
         Ok(())
     }
 
@@ -188,6 +189,15 @@ impl SchemaInner {
         // https://spec.graphql.org/October2021/#sec-Input-Objects.Type-Validation
         for ty in self.types.values() {
             if let Type::InputObject(obj) = ty {
+                // An Input Object type must define one or more input fields.
+                if obj.fields.is_empty() {
+                    return Err(format!(
+                        "Input object \"{}\" must define one or more fields",
+                        obj.name
+                    )
+                    .into());
+                }
+
                 for field in obj.fields.values() {
                     // The field must not have a name which begins with the characters "__" (two
                     // underscores)
@@ -282,6 +292,15 @@ impl SchemaInner {
         // https://spec.graphql.org/October2021/#sec-Interfaces.Type-Validation
         for ty in self.types.values() {
             if let Type::Interface(interface) = ty {
+                // An Interface type must define one or more fields.
+                if interface.fields.is_empty() {
+                    return Err(format!(
+                        "Interface \"{}\" must define one or more fields",
+                        interface.name
+                    )
+                    .into());
+                }
+
                 for field in interface.fields.values() {
                     // The field must not have a name which begins with the characters "__" (two
                     // underscores)
@@ -319,31 +338,31 @@ impl SchemaInner {
                             .into());
                         }
                     }
+                }
 
-                    // An interface type may declare that it implements one or more unique
-                    // interfaces, but may not implement itself.
-                    if interface.implements.contains(&interface.name) {
-                        return Err(format!(
-                            "Interface \"{}\" may not implement itself",
-                            interface.name
-                        )
-                        .into());
-                    }
+                // An interface type may declare that it implements one or more unique
+                // interfaces, but may not implement itself.
+                if interface.implements.contains(&interface.name) {
+                    return Err(format!(
+                        "Interface \"{}\" may not implement itself",
+                        interface.name
+                    )
+                    .into());
+                }
 
-                    // An interface type must be a super-set of all interfaces
-                    // it implements
-                    for interface_name in &interface.implements {
-                        if let Some(ty) = self.types.get(interface_name) {
-                            let implemenented_type = ty.as_interface().ok_or_else(|| {
-                                format!("Type \"{}\" is not interface", interface_name)
-                            })?;
-                            check_is_valid_implementation(
-                                &self.types,
-                                interface,
-                                &interface.implements,
-                                implemenented_type,
-                            )?;
-                        }
+                // An interface type must be a super-set of all interfaces
+                // it implements
+                for interface_name in &interface.implements {
+                    if let Some(ty) = self.types.get(interface_name) {
+                        let implemenented_type = ty.as_interface().ok_or_else(|| {
+                            format!("Type \"{}\" is not interface", interface_name)
+                        })?;
+                        check_is_valid_implementation(
+                            &self.types,
+                            interface,
+                            &interface.implements,
+                            implemenented_type,
+                        )?;
                     }
                 }
             }
@@ -356,6 +375,17 @@ impl SchemaInner {
         // https://spec.graphql.org/October2021/#sec-Unions.Type-Validation
         for ty in self.types.values() {
             if let Type::Union(union) = ty {
+                // A Union type must include one or more unique member types
+                // (the federation `_Entity` union of a schema without entities
+                // is generated, not defined).
+                if union.possible_types.is_empty() && union.name != "_Entity" {
+                    return Err(format!(
+                        "Union \"{}\" must include one or more member types",
+                        union.name
+                    )
+                    .into());
+                }
+
                 // The member types of a Union type must all be Object base
                 // types; Scalar, Interface and Union types must not be member
                 // types of a Union. Similarly, wrapping types must not be
@@ -371,6 +401,19 @@ impl SchemaInner {
                         .into());
                     }
                 }
+            }
+        }
+
+        Ok(())
+    }
+
+    fn check_enums(&self) -> Result<(), SchemaError> {
+        // https://spec.graphql.org/October2021/#sec-Enums.Type-Validation
+        for ty in self.types.values() {
+            if let Type::Enum(e) = ty
+                && e.enum_values.is_empty()
+            {
+                return Err(format!("Enum \"{}\" must define one or more values", e.name).into());
             }
         }
 
